@@ -379,8 +379,11 @@ def replay_model(job: dict) -> dict:
         out["walks"] = len(walks)
     tamper = job.get("tamper")
     for i, w in enumerate(walks):
-        if tamper is not None and i == 0:
-            # self-check of the binding: a tampered edge must be rejected
+        r = replay_walk(conf, job["instance"], w, i)
+        out["steps"] += len(w)
+        if tamper is not None and i == 0 and not r:
+            # self-check of the binding (only meaningful on a walk the code follows): a tampered
+            # edge must be rejected, at that edge
             import copy
 
             w2 = copy.deepcopy(w)
@@ -389,8 +392,6 @@ def replay_model(job: dict) -> dict:
                 w2[k]["op"]["incs"] = []
                 r2 = replay_walk(conf, job["instance"], w2, 10**6)
                 out["tamper_rejected"] = bool(r2 and r2[0] == k)
-        r = replay_walk(conf, job["instance"], w, i)
-        out["steps"] += len(w)
         if r:
             idx, e, d, desc = r
             out["divergences"].append({
